@@ -33,10 +33,24 @@ NumOf(s) == ZOf(Base(s)) + 1000 * Index(s)
 (* printed precision of the yaml text (decimals) *)
 FormatDecimals == [lattice |-> 15, coordinates |-> 15, mass |-> 6, magnetic_moment |-> 8]
 
+(* derived attributes: the cell volume and the chemical formulae (elements in alphabetical order, the  *)
+(* index of an extended symbol does not make another element; reduced = counts divided by their gcd)   *)
+Elements == <<"Fe", "H", "Si">>
+CountOf(syms, el) == Cardinality({i \in DOMAIN syms : Base(syms[i]) = el})
+Gcd(a, b) == LET RECURSIVE G(_, _)
+                 G(x, y) == IF y = 0 THEN x ELSE G(y, x % y)
+             IN G(a, b)
+GcdCounts(syms) == Gcd(Gcd(CountOf(syms, "Fe"), CountOf(syms, "H")), CountOf(syms, "Si"))
+Part(el, k) == IF k = 0 THEN "" ELSE IF k = 1 THEN el ELSE el \o ToString(k)
+FormulaDiv(syms, d) == Part("Fe", CountOf(syms, "Fe") \div d) \o Part("H", CountOf(syms, "H") \div d) \o Part("Si", CountOf(syms, "Si") \div d)
+Derived(x) == [volume |-> x.cell[1] * x.cell[2] * x.cell[3], formula |-> FormulaDiv(x.syms, 1),
+               reduced |-> FormulaDiv(x.syms, GcdCounts(x.syms))]
+
 NoCtor == [sy |-> <<>>, nu |-> <<>>, ma |-> <<>>, mg |-> <<>>, pk |-> "scaled", po |-> <<>>, ce |-> <<1,1,1,0>>]
 S2 == <<<<0,0,0>>, <<8,8,8>>>>
 C2 == <<<<0,0,0>>, <<1,2,2>>>>
 S3 == <<<<0,0,0>>, <<8,8,8>>, <<4,12,2>>>>
+S5 == <<<<0,0,0>>, <<8,8,8>>, <<4,12,2>>, <<12,4,6>>, <<2,2,10>>>>
 AllCtors == {
   [NoCtor EXCEPT !.sy = <<"Si", "Si">>, !.po = S2, !.ce = <<2,2,1,1>>],
   [NoCtor EXCEPT !.sy = <<"H", "Fe">>, !.pk = "cart", !.po = C2, !.ce = <<1,2,4,1>>],
@@ -55,6 +69,8 @@ AllCtors == {
   [NoCtor EXCEPT !.sy = <<"H", "Si">>, !.nu = <<1, 14>>, !.po = S2],
   [NoCtor EXCEPT !.sy = <<"H", "Si">>, !.ma = <<1, 2, 3>>, !.po = S2],
   [NoCtor EXCEPT !.sy = <<"H", "Si">>],
+  [NoCtor EXCEPT !.sy = <<"H", "Si", "H", "Si", "Si">>, !.po = S5, !.ce = <<2,2,1,1>>],
+  [NoCtor EXCEPT !.sy = <<"Fe1", "H", "Fe2", "H">>, !.ma = <<1, 2, 3, 2>>, !.mg = <<1, 0, -1, 0>>, !.po = SubSeq(S5, 1, 4)],
   [NoCtor EXCEPT !.sy = <<"Fe2", "H">>, !.ma = <<7, 8>>, !.pk = "cart", !.po = C2, !.ce = <<2,2,1,1>>]}
 
 Bad == [ok |-> FALSE, o |-> <<>>]
@@ -80,10 +96,10 @@ Construct(a) ==
                  mass |-> IF a.ma # <<>> THEN [i \in 1..n |-> <<"val", a.ma[i]>>] ELSE [i \in 1..n |-> <<"tab", ZOf(Base(syms[i]))>>],
                  mag |-> MagOf(a.mg, n), cell |-> a.ce, spos |-> Scaled(a.pk, a.po, a.ce)])
 
-AltS(n) == SubSeq(<<<<2,0,6>>, <<0,4,4>>, <<10,2,8>>, <<6,6,6>>>>, 1, n)
-AltC(n) == SubSeq(<<<<1,0,2>>, <<0,2,4>>, <<3,2,0>>, <<2,2,2>>>>, 1, n)
-AltM(n) == SubSeq(<<9, 8, 7, 6>>, 1, n)
-AltG(n) == SubSeq(<<2, -2, 1, 0, 0, 3, 1, 1, 0, 0, -1, 2>>, 1, n)
+AltS(n) == SubSeq(<<<<2,0,6>>, <<0,4,4>>, <<10,2,8>>, <<6,6,6>>, <<14,0,2>>, <<4,4,12>>>>, 1, n)
+AltC(n) == SubSeq(<<<<1,0,2>>, <<0,2,4>>, <<3,2,0>>, <<2,2,2>>, <<1,2,0>>, <<3,0,2>>>>, 1, n)
+AltM(n) == SubSeq(<<9, 8, 7, 6, 5, 4>>, 1, n)
+AltG(n) == SubSeq(<<2, -2, 1, 0, 0, 3, 1, 1, 0, 0, -1, 2, 3, 0, 1>>, 1, n)
 (* the setters: [name, argument] -> new object or refusal *)
 Setters(x) ==
   LET n == Len(x.syms) IN
@@ -133,5 +149,5 @@ InvTableMass == \A k \in DOMAIN objs : \A i \in DOMAIN objs[k].mass :
                    objs[k].mass[i][1] = "tab" => objs[k].mass[i][2] = ZOf(Base(objs[k].syms[i]))
 (* a step on one object leaves the others alone *)
 Independent == [][\A k \in DOMAIN objs : (k \in DOMAIN objs' /\ hist'[Len(hist')].obj # k) => objs'[k] = objs[k]]_avars
-Emit == status # "new" => PrintT(ToString(<<"AT", hist, status, objs>>))
+Emit == status # "new" => PrintT(ToString(<<"AT", hist, status, objs, [k \in DOMAIN objs |-> Derived(objs[k])]>>))
 =============================================================================
